@@ -218,27 +218,7 @@ func r22RejectionIsFinal(c *core.Ctx) {
 	}
 	c.Saw(R, "snap.SnapPolygon: "+c.P.InstrStr(ci))
 	errVal := ssa.Value(ci)
-	// edge filter: follow only edges on which errVal may be non-nil
-	errEdge := func(b *ssa.BasicBlock, k int) bool {
-		i := core.BlockIf(b)
-		if i == nil {
-			return true
-		}
-		if bo, ok := i.Cond.(*ssa.BinOp); ok && (bo.Op == token.NEQ || bo.Op == token.EQL) {
-			x, y := bo.X, bo.Y
-			if isNilConst(x) {
-				x, y = y, x
-			}
-			if x == errVal && isNilConst(y) {
-				nonNilSucc := 0
-				if bo.Op == token.EQL {
-					nonNilSucc = 1
-				}
-				return k == nonNilSucc
-			}
-		}
-		return true
-	}
+	errEdge := nonNilEdges(errVal)
 	// (1) snapping unreachable with err != nil
 	r, _ := core.Search{Fn: sp.SSA, From: ci, Target: func(in ssa.Instruction) bool { return in == ssa.Instruction(cs) }, Edge: errEdge}.Run()
 	c.Check(R, "no-snap-after-error/snap.SnapPolygon", snaps[0].Pos(), !r,
